@@ -330,9 +330,55 @@ def atoms_text():
     emit("fixed_end", [("chrom_start", N), ("item_span", N), ("item_step", N)], N, R.let_expr(b, "chrom_end", 0))
     emit("fixed_first", [("chrom_start", N)], N, R.let_expr(b, "curr_start"))
     emit("fixed_advance", [("item_step", N), ("item_span", N)], N, R.assign_expr(b, "curr_start", "+="))
+    # --- FileView: read and seek arithmetic (utils/file/file_view.rs) --------------------------------------------------
+    I = "Int"
+    fv = read("bigtools/src/utils/file/file_view.rs")
+    b = R.fn_region(fv, "read")
+    emit("fv_read_len", [("buf_len", N), ("self_end", N), ("current", N)], N, R.let_expr(b, "to_read"))
+    b = R.fn_region(fv, "seek", after="SeekFrom::Start(start) =>")
+    m = re.search(r"let\s+seek_from\s*=\s*io::SeekFrom::Start\(([^;]+)\);", b)
+    if not m:
+        raise R.Unsupported("seek(Start): target expression not found")
+    emit("fv_start_target", [("self_start", N), ("self_end", N), ("start", N)], N, R.parse_expr(m.group(1)))
+    emit("fv_rel", [("new_pos", N), ("self_start", N)], N, R.let_expr(b, "new_pos", 0))
+    b = R.fn_region(fv, "seek", after="SeekFrom::End(end) =>")
+    emit("fv_end_offset", [("end", I)], I, R.let_expr(b, "end", 0))
+    emit("fv_end_pos", [("self_end", N), ("end", I)], I, R.let_expr(b, "new_pos", 0))
+    emit("fv_end_clamp", [("new_pos", I), ("self_start", N), ("self_end", N)], I, R.let_expr(b, "new_pos", 1))
+    b = R.fn_region(fv, "seek", after="SeekFrom::Current(offset) =>")
+    emit("fv_cur_pos", [("current", N), ("offset", I)], I, R.let_expr(b, "new_pos", 0))
+    emit("fv_cur_clamp", [("new_pos", I), ("self_start", N), ("self_end", N)], I, R.let_expr(b, "new_pos", 1))
+    # --- chromosome index: the bisection of index_chroms (bed/indexer.rs do_index) -------------------------------------
+    b = R.fn_region(read("bigtools/src/bed/indexer.rs"), "do_index")
+    ixp = [("prev_tell", N), ("limit", N), ("probe", N), ("tell", N)]
+    emit("ix_stop", ixp, B, R.cond_over(b, {"limit", "prev_tell"}))
+    emit("ix_probe", ixp, N, R.let_expr(b, "probe"))
+    emit("ix_nothing_right", ixp, B, R.cond_over(b, {"tell", "limit"}))
+
+    def rec_limit(pat, what):
+        m = re.search(pat, b)
+        if not m:
+            raise R.Unsupported("do_index: recursive call for " + what + " not found")
+        return R.parse_expr(m.group(1))
+    call = r"do_index\(\s*file,\s*chroms,\s*line,\s*%s,\s*([^,]+),\s*depth_limit - 1\s*,?\s*\)"
+    emit("ix_retry_limit", ixp, N, rec_limit(call % r"prev,\s*next", "the retry in the left part"))
+    emit("ix_left_limit", ixp, N, rec_limit(call % r"prev,\s*Some\(curr\)", "the left half"))
+    emit("ix_right_limit", ixp, N, rec_limit(call % r"curr,\s*next", "the right half"))
+    # --- size-based chunking: split_file_into_chunks_by_size (utils/file.rs) -------------------------------------------
+    b = R.fn_region(read("bigtools/src/utils/file.rs"), "split_file_into_chunks_by_size")
+    chp = [("file_size", N), ("chunks", N), ("chunk_size", N), ("chunk_start", N), ("chunk_end", N)]
+    emit("ch_size", chp, N, R.let_expr(b, "chunk_size"))
+    emit("ch_first_end", chp, N, R.let_expr(b, "chunk_end"))
+    m = re.search(r"\(\s*chunk_start\s*,\s*chunk_end\s*\)\s*=\s*\(\s*([^,;]+),\s*([^;]+?)\s*,?\s*\)\s*;", b)
+    if not m:
+        raise R.Unsupported("chunker: the (chunk_start, chunk_end) update not found")
+    emit("ch_next_start", chp, N, R.parse_expr(m.group(1)))
+    emit("ch_next_end_raw", chp, N, R.parse_expr(m.group(2)))
+    emit("ch_clamp_end", chp, N, R.assign_expr(b, "chunk_end", "=", 1))
+    emit("ch_done", chp, B, R.cond_over(b, {"chunk_start", "file_size"}))
     return ("/-! GENERATED by tools/extract_consts.py (tools/rs2lean.py) from /repo's working tree — do not edit.\n"
             "    The arithmetic and branch conditions of the zoom tilers, the coverage sweeps, the section cut and the\n"
-            "    variable-step and fixed-step decoders, each translated from the expression in the Rust source. -/\nnamespace Gen\n\n"
+            "    variable-step and fixed-step decoders, of FileView's read and seek, of the chromosome bisection and of the size-based chunker, each translated from the expression in the Rust source. -/\nnamespace Gen\n\n"
             + "\n\n".join(out) + "\n\nend Gen\n")
 
 
